@@ -267,19 +267,27 @@ type env struct {
 	before projection
 }
 
+var sharedL2w, sharedL2r sop.L2Cache
+
 func openEnv(dir string, mod int) *env {
 	ctx := context.Background()
 	if err := os.MkdirAll(filepath.Join(dir, table), 0o755); err != nil {
 		die("mkdir: %v", err)
 	}
 	e := &env{dir: dir, mod: mod}
-	e.l2w = cache.NewL2InMemoryCache()
+	// one pair of L2 caches per process, emptied for every new registry (cheaper than 1024 fresh shard maps)
+	if sharedL2w == nil {
+		sharedL2w, sharedL2r = cache.NewL2InMemoryCache(), cache.NewL2InMemoryCache()
+	}
+	sharedL2w.Clear(ctx)
+	sharedL2r.Clear(ctx)
+	e.l2w = sharedL2w
 	rt, err := fs.NewReplicationTracker(ctx, []string{dir}, false, e.l2w)
 	if err != nil {
 		die("replication tracker: %v", err)
 	}
 	e.w = fs.NewRegistry(true, mod, rt, e.l2w)
-	e.l2r = cache.NewL2InMemoryCache()
+	e.l2r = sharedL2r
 	rt2, err := fs.NewReplicationTracker(ctx, []string{dir}, false, e.l2r)
 	if err != nil {
 		die("replication tracker: %v", err)
@@ -645,11 +653,9 @@ func (k *walker) walk(e *env, n *Node) *env {
 		e.close()
 		restoreSnapshot(k.dir, sn)
 		e = openEnv(k.dir, k.t.Mod)
-		back := e.observe() // the restored disk, as the projector sees it (its size only: the walk owns the restore)
-		back.Ev = "Back"
-		back.N = len(back.Cells)
-		back.Cells = []Cell{}
-		k.w.put(back)
+		// the restored disk, as the projector saw it when the registry was reopened (its size only: the walk owns the restore)
+		k.w.put(Event{Ev: "Back", Mod: e.mod, IDs: []ID{}, Vals: []int{}, Res: "ok", Wrote: []Cell{}, Erased: []Cell{}, Cells: []Cell{},
+			Found: []Found{}, Nseg: e.before.nseg, CrcOK: e.before.crcok, N: len(e.before.cells)})
 	}
 	return e
 }
